@@ -215,8 +215,9 @@ def _is_db_padding(ft, st, n, dbp):
 def _check_padding_order(repo, r4, s, enc, ft):
     cfg = ft.cfg
     # while N < 2 ** t: ... padded_database[...] = ...
+    from ..model import inline_locals as _il
     pad_loops = [n for n in cfg.nodes if n.kind == "test" and isinstance(n.stmt, ast.While) and any(
-        isinstance(x, ast.BinOp) and isinstance(x.op, ast.Pow) for x in ast.walk(n.stmt.test))]
+        isinstance(x, ast.BinOp) and isinstance(x.op, ast.Pow) for x in ast.walk(_il(enc.node, n.stmt.test)))]
     dbp = enc.params[2]
     level_loops = [n for n in cfg.nodes if n.kind == "for" and any(
         isinstance(c, ast.Call) and isinstance(c.func, ast.Attribute) and c.func.attr == "Encrypt" for b in n.stmt.body for c in ast.walk(b))
@@ -243,20 +244,45 @@ def _check_padding_order(repo, r4, s, enc, ft):
         r4.require(upd, enc, "padding loop advances", "%s: the padding loop does not advance the total size" % s.name, w)
     if s.name == "ANSS16.Scheme3":
         # per-list padding to 2^p precedes the encryption of that list
+        from ..model import inline_locals
         body_nodes = [n for n in cfg.nodes if n.kind == "stmt" and n.stmt is not None]
-        ext = [n for n in body_nodes if any(isinstance(c, ast.Call) and isinstance(c.func, ast.Attribute) and c.func.attr == "extend" and
-                                            isinstance(c.func.value, ast.Subscript) for c in ast.walk(n.stmt))
-               and any(isinstance(c, ast.Call) and dotted(c.func) == "os.urandom" for c in ast.walk(n.stmt))]
+
+        def is_db(t, depth=0):
+            if depth > 4:
+                return False
+            if t == ("param", dbp):
+                return True
+            if t[0] == "cont":
+                return is_db(t[2], depth + 1)
+            if t[0] == "call" and t[1].split(".")[-1] in ("deepcopy", "copy", "dict") and t[2]:
+                return is_db(t[2][0], depth + 1)
+            return False
+
+        def is_posting_list(t):
+            while t[0] == "cont":
+                t = t[2]      # a local name for the list: the mutation is on the object it was taken from
+            return t[0] == "sub" and is_db(t[1])
+        ext = []
+        for n in body_nodes:
+            for c in ast.walk(n.stmt):
+                if isinstance(c, ast.Call) and isinstance(c.func, ast.Attribute) and c.func.attr == "extend" and c.args and \
+                        is_posting_list(ft.term(c.func.value, n.id)) and any(isinstance(x, ast.Call) and dotted(x.func) == "os.urandom" for x in ast.walk(c.args[0])):
+                    ext.append((n, c))
         encs = [n for n in body_nodes if any(isinstance(c, ast.Call) and isinstance(c.func, ast.Attribute) and c.func.attr == "Encrypt" for c in ast.walk(n.stmt))
                 and any(isinstance(g, (ast.ListComp, ast.GeneratorExp)) for g in ast.walk(n.stmt))]
         if r4.require(bool(ext), enc, "per-list padding", "ANSS16: posting lists are no longer padded with dummy identifiers to 2^p before encryption"):
             for e in encs:
-                r4.require(any(cfg.dominates(x.id, e.id) for x in ext), enc, "per-list padding before encryption",
+                r4.require(any(cfg.dominates(x.id, e.id) for x, _c in ext), enc, "per-list padding before encryption",
                            "ANSS16: a posting list is encrypted before it has been padded to 2^p", e.stmt)
             # pad count 2**pi - ni
-            for x in ext:
-                ok = any(isinstance(b, ast.BinOp) and isinstance(b.op, ast.Sub) and isinstance(b.left, ast.BinOp) and isinstance(b.left.op, ast.Pow)
-                         for b in ast.walk(x.stmt))
+            for x, c in ext:
+                ok = False
+                for r_ in ast.walk(c.args[0]):
+                    if isinstance(r_, ast.Call) and dotted(r_.func) == "range" and len(r_.args) == 1:
+                        b_ = inline_locals(enc.node, r_.args[0])
+                        if isinstance(b_, ast.BinOp) and isinstance(b_.op, ast.Sub) and isinstance(b_.left, ast.BinOp) and isinstance(b_.left.op, ast.Pow) and \
+                                isinstance(b_.left.left, ast.Constant) and b_.left.left.value == 2:
+                            ok = True
                 r4.require(ok, enc, "per-list pad count", "ANSS16: the per-list padding no longer fills up to 2^p - n entries", x.stmt)
 
 
